@@ -75,6 +75,8 @@ def make_spec(p):
                 {"kind": "reaction", "name": "v1", "args": ["k1", "x"], "expr": ["mul", N("k1"), N("x")], "stoich": {"x": -1, "y": "n"}},
                 {"kind": "reaction", "name": "v2", "args": ["k2", "y", "dv"], "expr": ["add", ["mul", N("k2"), N("y")], ["mul", V(0.1), N("dv")]],
                  "stoich": {"y": {"args": ["m"], "expr": ["mul", V(-1.0), N("m")]}}},
+                {"kind": "reaction", "name": "vs", "args": ["y"], "expr": ["mul", V(0.1), N("y")],
+                 "stoich": {"x": {"args": ["y"], "expr": ["mul", V(0.5), N("y")]}}},
                 {"kind": "reaction", "name": "vz", "args": ["k2", "x"], "expr": ["mul", N("k2"), N("x")],
                  "stoich": {"x": 0.0, "y": {"args": ["m"], "expr": ["sub", N("m"), N("m")]}}},
                 {"kind": "surrogate", "name": "s", "args": ["x"], "outputs": ["sf", "sv"],
@@ -98,6 +100,8 @@ def make_spec(p):
             {"kind": "reaction", "name": "v1", "args": ["k1", "x"], "expr": ["mul", N("k1"), N("x")], "stoich": {"x": -1, "y": "n"}},
             {"kind": "reaction", "name": "v2", "args": ["dp", "y", "dv"], "expr": ["add", ["mul", N("dp"), N("y")], ["mul", V(0.1), N("dv")]],
              "stoich": {"y": {"args": ["m"], "expr": ["mul", V(-1.0), N("m")]}}},
+            {"kind": "reaction", "name": "vs", "args": ["y"], "expr": ["mul", V(0.1), N("y")],
+             "stoich": {"x": {"args": ["y"], "expr": ["mul", V(0.5), N("y")]}}},
             {"kind": "reaction", "name": "vz", "args": ["k2", "x"], "expr": ["mul", N("k2"), N("x")],
              "stoich": {"x": 0.0, "y": {"args": ["m"], "expr": ["sub", N("m"), N("m")]}}},
             {"kind": "surrogate", "name": "s", "args": ["x"], "outputs": ["sf", "sv"],
@@ -108,8 +112,8 @@ def make_spec(p):
 
 
 VARS = ["x", "y"]
-FLUXES = ["v0", "v1", "v2", "vz", "sf"]
-RXNS = ["v0", "v1", "v2", "vz"]  # vz: coefficients that are exactly zero (a literal 0 and a computed m - m)
+FLUXES = ["v0", "v1", "v2", "vs", "vz", "sf"]
+RXNS = ["v0", "v1", "v2", "vs", "vz"]  # vs: a coefficient that depends on the state (0.5 * y, always positive)  # vz: coefficients that are exactly zero (a literal 0 and a computed m - m)
 
 _PRISTINE = {}
 
@@ -201,7 +205,7 @@ def _views():
         ("get_producers(y,scaled)", lambda s, **kw: s.get_producers("y", scaled=True, **kw), ["v1"], "scaled"),
         ("get_consumers(y)", lambda s, **kw: s.get_consumers("y", **kw), ["v2", "sf"], "vals"),
         ("get_consumers(y,scaled)", lambda s, **kw: s.get_consumers("y", scaled=True, **kw), ["v2", "sf"], "scaled"),
-        ("get_producers(x)", lambda s, **kw: s.get_producers("x", **kw), ["v0"], "vals"),
+        ("get_producers(x)", lambda s, **kw: s.get_producers("x", **kw), ["v0", "vs"], "vals"),
     ]
     norms = {None: lambda n: None, "scalar": lambda n: 2.0, "segment": _per_seg_factors, "row": _per_row_factors}
     for mname, fn, cols, source in methods:
